@@ -146,6 +146,18 @@ def encode(s, name, errors='strict'):
 
 
 def decode(s, name, errors='strict'):
+    if errors == 'replace':
+        r = canon(name)
+        enc = r[0] if isinstance(r, tuple) else r
+        if not isinstance(s, SSeq):
+            return s.decode(name, errors)
+        if enc == 'ascii':
+            # each undecodable byte becomes U+FFFD (length-preserving)
+            return mk_seq([e if isinstance(e, int) and e < 128 else (0xfffd if isinstance(e, int) else
+                           z3.If(z3.ULT(e, 128), z3.ZeroExt(24, e), z3.BitVecVal(0xfffd, 32))) for e in s.el], str)
+        if enc == 'latin-1':
+            return mk_seq([_w(e) for e in s.el], str)
+        raise Unmodelled('decode errors=replace for %s' % enc)
     if errors != 'strict':
         raise Unmodelled('decode errors=%r' % (errors,))
     r = canon(name)
